@@ -403,18 +403,32 @@ def parse_atom(kind, text):
     return ("str", text)
 
 
-def parse(fmt, el, tag=None, text=None, set_sorted=False, side="W"):
+def parse(fmt, el, tag=None, text=None, set_sorted=False, side="W", doc_order=False):
     """abstract tree of an lxml element under fmt (writer's or reader's table); children are put in table
-    order (stable)"""
+    order (stable) - except, with doc_order, inside the elements whose XSD type is an xs:sequence
+    (XSD_TYPE): there the document order is kept, which is what property C03 judges"""
     tag = tag if tag is not None else el.tag
     if isinstance(fmt, L):
         return ("leaf", tag, parse_atom(fmt.kind, text if el is None else el.text))
     kids = []
+    if doc_order and isinstance(fmt, R) and fmt.name in XSD_TYPE:
+        by = {f.tag: f for f in fmt.fields}
+        for f in fmt.fields:
+            if f.tag.startswith("@") and f.tag[1:] in el.attrib:
+                kids.append(parse(f.fmt, None, f.tag, el.attrib[f.tag[1:]]))
+        for ch in el:
+            if not isinstance(ch.tag, str):
+                continue
+            if ch.tag in by:
+                kids.append(parse(by[ch.tag].fmt, ch, side=side, doc_order=True))
+            else:
+                kids.append(("leaf", ch.tag, ("str", "?unknown element")))
+        return ("node", tag, kids)
     if isinstance(fmt, A):
         by = {a.tag: a for a in fmt.alts}
         for ch in el:
             if ch.tag in by:
-                kids.append(parse(by[ch.tag].fmt, ch, set_sorted=set_sorted, side=side))
+                kids.append(parse(by[ch.tag].fmt, ch, set_sorted=set_sorted, side=side, doc_order=doc_order))
             else:
                 kids.append(("leaf", ch.tag, ("str", "?unknown element")))
         return ("node", tag, kids)
@@ -428,7 +442,7 @@ def parse(fmt, el, tag=None, text=None, set_sorted=False, side="W"):
         else:
             for ch in el:
                 if ch.tag == ftag:
-                    grp.append(parse(f.fmt, ch, set_sorted=set_sorted, side=side))
+                    grp.append(parse(f.fmt, ch, set_sorted=set_sorted, side=side, doc_order=doc_order))
         if f.as_set and set_sorted:
             grp.sort(key=repr)
         kids += grp
@@ -515,3 +529,81 @@ def coq_table():
            "From Coq Require Import String List.\nFrom CR Require Import Model.Codec.\nImport ListNotations.\n"
            "Open Scope string_scope.\n\n")
     return hdr + module("W") + "\n" + module("R")
+
+
+# ------------------------------------------------------------------------------------------ XSD element order
+# format node -> complex type of the shipped XSD whose xs:sequence fixes the order of its children
+XSD_TYPE = {"point": "point", "rectangle": "rectangle", "circle": "circle", "polygon": "polygon",
+            "occupancy": "occupancy", "bound_left_vertices": "bound", "bound_right_vertices": "bound",
+            "stopLine": "stopLine", "lanelet": "lanelet", "trafficSign": "trafficSign",
+            "cycleElement": "trafficCycleElement", "cycle": "trafficLightCycle", "trafficLight": "trafficLight",
+            "incoming": "incoming", "crossing": "crossing", "intersection": "intersection",
+            "staticObstacle": "staticObstacle", "dynamicObstacle": "dynamicObstacle",
+            "environmentObstacle": "environmentObstacle", "phantomObstacle": "phantomObstacle",
+            "planningProblem": "planningProblem", "additionalTransformation": "additionalTransformation",
+            "geoTransformation": "geoTransformation", "environment": "environment", "location": "location",
+            "commonRoad": "<root>"}
+
+
+def xsd_sequences():
+    """complex type name -> element names in xs:sequence order (choices inside a sequence are flattened: their
+    alternatives share one slot).  Fail-closed: a mapped type that is not an xs:sequence raises."""
+    from lxml import etree
+    from props.codec_gen import XSD_PATH, XS
+    root = etree.parse(XSD_PATH).getroot()
+
+    def flatten(node):
+        out = []
+        for ch in node:
+            if ch.tag == XS + "element":
+                out.append(ch.get("name"))
+            elif ch.tag in (XS + "choice", XS + "sequence"):
+                out += flatten(ch)
+            elif ch.tag in (XS + "annotation",) or not isinstance(ch.tag, str):
+                continue
+            else:
+                raise ValueError(f"unexpected XSD construct {ch.tag} inside a sequence")
+        return out
+
+    seqs = {}
+    for ct in root.findall(XS + "complexType"):
+        kids = [k for k in ct if isinstance(k.tag, str) and k.tag not in (XS + "attribute", XS + "annotation")]
+        if len(kids) == 1 and kids[0].tag == XS + "sequence":
+            seqs[ct.get("name")] = flatten(kids[0])
+    el = [e for e in root.findall(XS + "element") if e.get("name") == "commonRoad"]
+    if len(el) != 1:
+        raise ValueError("root element commonRoad not found in the XSD")
+    seq = el[0].find(XS + "complexType").find(XS + "sequence")
+    seqs["<root>"] = flatten(seq)
+    return seqs
+
+
+def coq_xsd_order():
+    from vlib.core import qstr
+    seqs = xsd_sequences()
+    names = {}
+
+    def collect(fmt):
+        if isinstance(fmt, L) or id(fmt) in names:
+            return
+        names[id(fmt)] = fmt
+        for sub in ([a.fmt for a in fmt.alts] if isinstance(fmt, A) else [f.fmt for f in fmt.fields]):
+            collect(sub)
+    collect(ROOT)
+    rows = []
+    for fmt in names.values():
+        if isinstance(fmt, R) and fmt.name in XSD_TYPE:
+            ty = XSD_TYPE[fmt.name]
+            if ty not in seqs:
+                raise ValueError(f"XSD type {ty} (for {fmt.name}) is not an xs:sequence any more")
+            order = "[" + "; ".join(qstr(t) for t in seqs[ty]) + "]"
+            coqname = "W.xml_root" if fmt is ROOT else "W.f_" + fmt.name
+            rows.append(f"  ({qstr(fmt.name)}, {coqname}, {order})")
+    missing = set(XSD_TYPE) - {f.name for f in names.values() if isinstance(f, R)}
+    if missing:
+        raise ValueError(f"format nodes {missing} no longer exist")
+    return ("(* GENERATED by harness/props/xmlfmt.py from the shipped XML_commonRoad_XSD.xsd: for every element\n"
+            "   format whose XSD complex type is an xs:sequence, the element names in schema order. Do not edit. *)\n"
+            "From Coq Require Import String List.\nFrom CR Require Import Model.Codec Gen.XmlFmt.\n"
+            "Import ListNotations.\nOpen Scope string_scope.\n\n"
+            "Definition xsd_sequences : list (string * fmt * list string) := [\n" + ";\n".join(rows) + "\n].\n")
